@@ -51,6 +51,9 @@ class C38Exchange(StreamState):
         LOG.append("process")
         out.emit(input.batch)
 
+    def on_cancel(self, ctx: CallContext) -> None:
+        LOG.append("on_cancel")
+
 
 @dataclass
 class C38Producer(ProducerState):
@@ -63,6 +66,9 @@ class C38Producer(ProducerState):
             return
         self.left -= 1
         out.emit_pydict({"x": [self.left]})
+
+    def on_cancel(self, ctx: CallContext) -> None:
+        LOG.append("on_cancel")
 
 
 _SCHEMA = pa.schema([("x", pa.int64())])
@@ -113,6 +119,7 @@ def make_apps() -> dict[bool, Any]:
 # outcomes
 # ---------------------------------------------------------------------------------------------
 # ("conn",) ("timeout", cls) ("disc",) ("proto", msg) ("other", cls) ("resp", status, ra)
+# ("timeout", cls, "delivered") / ("proto", msg, "delivered"): level B only -- the server processed the request, the response was lost
 # ra: None | ("float", text) | ("date", delta_seconds:int) | ("garbage", text)
 def ra_header(ra: Any) -> str | None:
     if ra is None:
@@ -151,6 +158,7 @@ class FaultTransport(httpx2.BaseTransport):
         self.target_events: list[Any] = []            # per target request: the scripted outcome or ("pass", status)
         self.raised: list[tuple[Exception, tuple[Any, ...]]] = []
         self.pos = 0
+        self.cancel_requests = 0                      # target requests whose body carries vgi_rpc.cancel
 
     def arm(self, method: str, suffix: str, script: list[tuple[Any, ...]]) -> None:
         self.target = (method, suffix)
@@ -159,16 +167,22 @@ class FaultTransport(httpx2.BaseTransport):
         self.target_events = []
         self.raised = []
         self.log = []
+        self.cancel_requests = 0
 
     def is_target(self, request: httpx2.Request) -> bool:
         return self.target is not None and request.method == self.target[0] and request.url.path.endswith(self.target[1])
 
     def handle_request(self, request: httpx2.Request) -> httpx2.Response:
         self.log.append((request.method, str(request.url)))
+        if self.is_target(request) and b"vgi_rpc.cancel" in request.content:
+            self.cancel_requests += 1
         if self.is_target(request) and self.pos < len(self.script):
             o = self.script[self.pos]
             self.pos += 1
             self.target_events.append(o)
+            if len(o) > 2 and o[-1] == "delivered" and o[0] != "resp" and self.inner is not None:
+                # the request reaches the server and is processed; the response is lost on the way back
+                self.inner.handle_request(request)
             if o[0] == "resp":
                 hdrs = {}
                 h = ra_header(o[2])
@@ -366,3 +380,60 @@ def run_level_b(apps: dict[bool, Any], op: str, cfg: dict[str, Any] | None, scri
     res["aux"] = [(m, u) for (m, u) in tr.log if not (m == method and u.split("?")[0].endswith(suffix))]
     res["server_log"] = list(LOG)
     return res
+
+
+# ---------------------------------------------------------------------------------------------
+# histories of operations on one stream session
+# ---------------------------------------------------------------------------------------------
+STARTS = {"live": ("g", {"a": 1}), "producer": ("h", {"n": 3}), "finished": ("h", {"n": 0})}
+
+
+def run_history(apps: dict[bool, Any], cfg: dict[str, Any] | None, start: str, ops: list[str], script: list[tuple[Any, ...]], ext_ok: bool) -> dict[str, Any]:
+    """init a stream, then exchange() / cancel() / close() in the given order on the SAME session; every request to the
+    session's exchange URL consumes the script.  Per operation: requests issued, final, server-side hooks that ran."""
+    from vgi_rpc.http import http_connect
+    from vgi_rpc.http._retry import HttpTransientError
+    from vgi_rpc.rpc import RpcError
+
+    tr = FaultTransport(httpx2.WSGITransport(app=apps[ext_ok]))
+    client = httpx2.Client(transport=tr, base_url="http://test")
+    conf = make_config(cfg) if cfg is not None else None
+    method, kwargs = STARTS[start]
+    suffix = f"/{method}/exchange"
+    batch = AnnotatedBatch(batch=pa.record_batch({"x": [1, 2]}, schema=_SCHEMA))
+    per_op: list[dict[str, Any]] = []
+    with http_connect(C38Service, client=client, retry=conf, compression_level=None) as proxy:
+        s = getattr(proxy, method)(**kwargs)
+        state0 = {"finished": bool(s._finished), "has_token": s._state_bytes is not None}
+        tr.arm("POST", suffix, script)
+        del LOG[:]
+        for op in ops:
+            n0, e0, c0, l0 = len(tr.log), len(tr.target_events), tr.cancel_requests, len(LOG)
+            try:
+                if op == "exchange":
+                    s.exchange(batch)
+                elif op == "cancel":
+                    s.cancel()
+                elif op == "close":
+                    s.close()
+                else:
+                    raise ValueError(op)
+                final: tuple[Any, ...] = ("ok",)
+            except HttpTransientError as e:
+                final = ("transient", e.status_code)
+            except RpcError as e:
+                final = ("rpcerror", e.error_type, str(e.error_message)[:120])
+            except Exception as e:  # noqa: BLE001
+                o = tr.kind_of(e)
+                final = ("raise", o, type(e).__name__) if o is not None else ("crash", type(e).__name__, str(e)[:200])
+            reqs = tr.log[n0:]
+            per_op.append({
+                "op": op, "final": final,
+                "target_sends": sum(1 for (m, u) in reqs if m == "POST" and u.split("?")[0].endswith(suffix)),
+                "cancel_requests": tr.cancel_requests - c0,
+                "events": tr.target_events[e0:],
+                "aux": [(m, u) for (m, u) in reqs if not (m == "POST" and u.split("?")[0].endswith(suffix))],
+                "server": LOG[l0:],
+            })
+    client.close()
+    return {"state0": state0, "ops": per_op, "cancel_requests_total": tr.cancel_requests, "server_log": list(LOG)}
